@@ -10,44 +10,9 @@ import (
 	"fmt"
 	"runtime"
 	"strings"
-	"sync"
 	"sync/atomic"
 	"time"
 )
-
-// triggerCtx is a context whose end is triggered synchronously by the harness, either as a
-// cancellation or as an expired deadline (the engine only ever asks Err()).
-type triggerCtx struct {
-	mu      sync.Mutex
-	err     error
-	done    chan struct{}
-	flavour error
-}
-
-func newTriggerCtx(flavour error) *triggerCtx {
-	return &triggerCtx{done: make(chan struct{}), flavour: flavour}
-}
-func (t *triggerCtx) Deadline() (time.Time, bool) {
-	if t.flavour == context.DeadlineExceeded {
-		return time.Unix(1, 0), true
-	}
-	return time.Time{}, false
-}
-func (t *triggerCtx) Done() <-chan struct{} { return t.done }
-func (t *triggerCtx) Err() error {
-	t.mu.Lock()
-	defer t.mu.Unlock()
-	return t.err
-}
-func (t *triggerCtx) Value(key interface{}) interface{} { return nil }
-func (t *triggerCtx) trigger() {
-	t.mu.Lock()
-	defer t.mu.Unlock()
-	if t.err == nil {
-		t.err = t.flavour
-		close(t.done)
-	}
-}
 
 var c15Opts = TraceOpts{MinRules: 2, MaxRules: 6, MinPool: 3, MaxPool: 6, Control: true, NoComplete: true, Calls: true, Strs: false, Depth: 2, Marks: true, ManyTrue: true}
 
@@ -247,6 +212,65 @@ func runC15Case(c *Ctx, idx int) *CaseResult {
 			cr.NonTrivial = append(cr.NonTrivial, hashStr(fmt.Sprintf("%s|%d", text, e)))
 		}
 	}
+	// every ctx.Err() call of the engine is a point at which the context may have just ended:
+	// enumerate the call indices too (this reaches the windows between two consecutive checks,
+	// which no boundary event separates)
+	K := 0
+	{
+		kb, err := NewInstance(lib)
+		if err == nil {
+			cctx := newTriggerCtx(context.Canceled)
+			Run(kb, prog, CopyStateLive(init), RunCfg{MaxCycle: maxCycle, Ctx: cctx, NoSnap: true})
+			K = cctx.ErrCalls()
+			cr.Evals++
+		}
+	}
+	calls := make([]int, 0, K)
+	for k := 1; k <= K; k++ {
+		calls = append(calls, k)
+	}
+	if len(calls) > maxPts {
+		pr := c.Rng(idx, 6)
+		pr.Shuffle(len(calls), func(i, j int) { calls[i], calls[j] = calls[j], calls[i] })
+		calls = calls[:maxPts]
+	}
+	for _, k := range calls {
+		kb, err := NewInstance(lib)
+		if err != nil {
+			continue
+		}
+		flavour := context.Canceled
+		if k%2 == 1 {
+			flavour = context.DeadlineExceeded
+		}
+		tctx := newTriggerCtx(flavour)
+		cfg := RunCfg{MaxCycle: maxCycle, Ctx: tctx, Cancel: tctx.trigger, CancelAtErrCall: k}
+		res := Run(kb, prog, CopyStateLive(init), cfg)
+		tctx.trigger()
+		cr.Evals++
+		a := Analyze(prog, res, cfg, nil)
+		var p int64
+		for _, ev := range res.Events {
+			if ev.Kind == "cancel" {
+				p = ev.Seq
+			}
+		}
+		if p == 0 {
+			cr.inc("err_call_point_not_reached")
+			continue
+		}
+		vs := MonCancelStops(a, p, res.Rec.CancelSnap, false)
+		if len(vs) > 0 {
+			d := caseDetail(text, "one", init, res, vs)
+			d["context_ended_at_err_call"] = k
+			cr.violate(fmt.Sprintf("context ended just before its Err() call number %d: %s", k, joinViol(vs[:min(2, len(vs))])), d)
+			continue
+		}
+		cr.inc("ctx_err_call_points")
+		if res.Err != nil {
+			cr.NonTrivial = append(cr.NonTrivial, hashStr(fmt.Sprintf("%s|err%d", text, k)))
+		}
+	}
 	// pre-cancelled and expired contexts
 	for k := 0; k < 2; k++ {
 		kb, err := NewInstance(lib)
@@ -344,7 +368,7 @@ func runC15Case(c *Ctx, idx int) *CaseResult {
 func init() {
 	register(&Check{
 		ID: "C15", Level: "fault_enumeration",
-		Rule: "per terminating program (2-6 rules, every action list starts with T.Seq = T.Seq + 1; T.Mark(T.Seq)) a first run counts the E boundary events (BeginCycle, each EvaluateRuleEntry, ExecuteRuleEntry, each harness-method call inside a condition / an action); then for every e<=E (all up to 80 quick / 400 thorough, seeded sample beyond) the run is repeated with the context ended synchronously at event e, alternately by cancellation and by an expiring deadline; plus pre-cancelled, deadline in the past, and 6 asynchronous cancellations per program from a second goroutine (race-detector build, verdict from stamp order only); non-trivial = distinct (program, point) where a further firing was still due (Execute had to return the context error)",
+		Rule: "per terminating program (2-6 rules, every action list starts with T.Seq = T.Seq + 1; T.Mark(T.Seq)) a first run counts the E boundary events (BeginCycle, each EvaluateRuleEntry, ExecuteRuleEntry, each harness-method call inside a condition / an action); then for every e<=E (all up to 80 quick / 400 thorough, seeded sample beyond) the run is repeated with the context ended synchronously at event e, alternately by cancellation and by an expiring deadline; the same for every index k of the engine's own ctx.Err() calls (the context ends just before the k-th call: this reaches the windows between two consecutive checks); plus pre-cancelled, deadline in the past, and 6 asynchronous cancellations per program from a second goroutine (race-detector build, verdict from stamp order only); non-trivial = distinct (program, point) where a further firing was still due (Execute had to return the context error)",
 		Assume: []string{"programs contain no Complete() (what should win is unspecified)", "a nil return when cancellation landed in the final quiescent cycle is accepted", "any prefix of the running rule's action list is accepted after cancellation inside it"},
 		Cases:  tierN(300, 8000),
 		Run:    runC15Case,
